@@ -291,6 +291,16 @@ def triple_fma(rng):
         if rng.random() < 0.3: c1 = 10 ** rng.randint(0, 33); c2 = 10 ** rng.randint(0, 33)
         e3 = QMAX - rng.randint(0, 40)
         return fin(rng.randint(0, 1), c1, e1), fin(rng.randint(0, 1), c2, e2), fin(rng.randint(0, 1), c3, e3)
+    if k < 0.78:      # product an exact power of ten just above MAX, small opposite-signed addend (fma overflow-zone corner)
+        P = QMAX + 34 + rng.randint(-2, 4)          # product = 10^P
+        a = rng.randint(0, 33); b = rng.randint(0, 33)
+        e1 = rng.randint(max(QMIN, P - a - b - QMAX), min(QMAX, P - a - b - QMIN)); e2 = P - a - b - e1
+        e1 = max(QMIN, min(QMAX, e1)); e2 = max(QMIN, min(QMAX, e2))
+        s1, s2 = rng.randint(0, 1), rng.randint(0, 1)
+        q3 = rng.randint(1, 34); e3 = QMAX + rng.randint(-1, 1) - (q3 - 1) + rng.choice([0, 0, 0, -1, 1])
+        c3 = rng.choice([coeff(rng, q3), 5 * 10 ** (q3 - 1), 5 * 10 ** (q3 - 1) + 1, max(1, 5 * 10 ** (q3 - 1) - 1), 10 ** (q3 - 1), 10 ** q3 - 1])
+        sz = (1 - (s1 ^ s2)) if rng.random() < 0.8 else (s1 ^ s2)
+        return fin(s1, 10 ** a, e1), fin(s2, 10 ** b, e2), fin(sz, c3, max(QMIN, min(QMAX, e3)))
     if k < 0.84:      # z = +-0 at every kind of exponent; y = 1
         x, y = finite(rng), finite(rng)
         if rng.random() < 0.5: return x, y, fin(rng.randint(0, 1), 0, expo(rng))
